@@ -60,6 +60,9 @@ def main():
                 print(r.stdout[-1500:])
         json.dump(out, open(path, "w"), indent=1)
     finally:
+        # the translators wrote Gen files for the seeded tree into the shared development: put the
+        # committed ones (generated from /repo) back
+        subprocess.run(["git", "-C", ROOT, "checkout", "--", "coq/theories/Gen", "harness/src/gen"], stderr=subprocess.DEVNULL)
         subprocess.run(["git", "-C", "/repo", "worktree", "remove", "--force", wt])
         tag = hashlib.sha1(wt.encode()).hexdigest()[:10]
         for d in os.listdir(os.path.join(ROOT, ".cache")):
